@@ -43,7 +43,7 @@ warnings.filterwarnings("ignore", category=DeprecationWarning)
 warnings.filterwarnings("ignore", category=UserWarning)
 
 ID = "C20"
-LEAN_TARGETS = ["RV.C20.Props", "RV.C20.TextProps", "RV.C20.Audit"]
+LEAN_TARGETS = ["RV.C20.Props", "RV.C20.TextProps", "RV.C20.ValuesProps", "RV.C20.Audit"]
 AUDIT = "RV/C20/Audit.lean"
 DRIVER = "drv_c20"
 CASES = {"quick": 600, "thorough": 12000, "search": 4000}
@@ -69,7 +69,7 @@ TRUSTED = ["harness/c20.py generators, canonicalisation and the mapping of Graph
 
 E = "http://e/"
 IRIS = {1: URIRef(E + "s1"), 2: URIRef(E + "s2"), 3: URIRef("http://e/é/ü"), 4: URIRef("urn:x:y"),
-        5: URIRef(E + "q?a=1&b=2#frag"), 6: URIRef(E + "a%20b+c")}
+        5: URIRef(E + "q?a=1&b=2#frag"), 6: URIRef(E + "a%20b+c"), 7: URIRef("http://[::1]/a#b")}
 PREDS = {10: URIRef(E + "p"), 11: URIRef(E + "q#frag"), 12: URIRef("http://www.w3.org/1999/02/22-rdf-syntax-ns#type"),
          13: URIRef(E + "pé")}
 LITS = {
@@ -82,6 +82,10 @@ LITS = {
     44: Literal("brace } { # <x> WHERE { ?s"), 45: Literal(" lead trail "), 46: Literal("trailing\\"),
     47: Literal(True), 48: Literal("x", datatype=XSD.string), 49: Literal("pct %41 + & = ; \u0085  end"),
     50: Literal("1", datatype=XSD.integer), 51: Literal('"'), 52: Literal("\n"),
+    # braces where `_insert_named_graph` must not see them: a long-quoted literal with a lone quote before a brace,
+    # single quotes / hash / braces in a short one
+    53: Literal('nl\n" { x } "q'), 54: Literal("sq ' { } # <"), 55: Literal('two\n"" } {'),
+    56: Literal('nl\n" { x'), 57: Literal('nl\n"} x'),
 }
 BNODES = {900: BNode("b900"), 901: BNode("b901")}
 HOOKED = {1000: URIRef("bnode:bb900"), 1001: URIRef("bnode:bb901")}
@@ -217,14 +221,19 @@ def gen_case(rng, tier, i):
                 for _ in range(rng.randint(1, 3)):
                     kk = rng.random()
                     if kk < 0.45:
-                        lops.append(["I", [_triple(rng, objs, False) for _ in range(rng.randint(1, 2))]])
+                        tr = [_triple(rng, objs, False) for _ in range(rng.randint(1, 2))]
+                        if rng.random() < 0.45:      # braces / quotes / hashes inside literals and IRIs
+                            tr[0][2] = rng.choice([44, 53, 54, 55, 56, 57, 36, 42, 25])
+                            if rng.random() < 0.3:
+                                tr[0][0] = 7
+                        lops.append(["I", tr])
                     elif kk < 0.65:
                         lops.append(["D", [some_triple(g)[:3] for _ in range(rng.randint(1, 2))]])
                     else:
                         lops.append(["W", _mask(rng, some_triple(g))])
                 lops = [l for l in lops if not any(x in BNODES for row in (l[1] if l[0] != "W" else [l[1]]) for x in row if x)]
                 if lops:
-                    style = rng.randint(0, 3)
+                    style = rng.choice([0, 1, 2, 3, 5])
                     if rng.random() < 0.3:
                         w = ["W", _mask(rng, some_triple(g))]
                         w[1] = [x if x not in BNODES else None for x in w[1]]
@@ -353,6 +362,7 @@ def vocab_lines():
 
 
 VOCAB_LINES = None
+ING_STATS = []
 
 
 def model_lines(case):
@@ -431,8 +441,10 @@ def _model_blocks(case, out):
 
 
 def _blank_user_queries(op, sent):
-    """`query` ops send the caller's own text: the request is compared as `Q?` (the pre-read commit still counts)"""
-    if op[0] != "query" or sent == "-":
+    """`query` ops send the caller's own text.  Pattern queries (with or without the VALUES block of initBindings)
+    are decoded like the store's own; a prefixed name or a GRAPH pattern is outside the reader's fragment and is
+    compared as `Q?` (the pre-read commit still counts)"""
+    if op[0] != "query" or op[1] not in ("pfx", "named") or sent == "-":
         return sent
     return " | ".join("Q?" if r.startswith("Q") else r for r in sent.split(" | "))
 
@@ -442,6 +454,22 @@ def select_model_obs(case, out):
     for op, (o, e, sent, _txt) in zip(case["ops"], _model_blocks(case, out)):
         res.append(f"{o} ; {e} ; SENT {_blank_user_queries(op, sent)}")
     return res
+
+
+def ing_requests(case):
+    """(graph IRI, caller text) of every update() call on a named graph (what `_insert_named_graph` rewrites)"""
+    out = []
+    cfg = case["cfg"]
+    for op in case["ops"]:
+        if op[0] != "update" or op[3] == 4 or any(x in BNODES for x in _flat(op[2]) if isinstance(x, int)):
+            continue
+        g = op[1]
+        if cfg == "graph":
+            g = G0
+        if g == 0:
+            continue
+        out.append((str(GNAME[g]), update_text(op[2], op[3], lambda x: TERM[x])))
+    return out
 
 
 def driver_session(case, captured):
@@ -460,13 +488,21 @@ def driver_session(case, captured):
                 lines.append(f"decode u {_cps(text)}")
             else:
                 lines.append(f"decode q {'-' if g is None else _cps(g)} {_cps(text)}")
+    n_dec = len(lines) - n_model
+    ings = ing_requests(case)
+    for giri, text in ings:
+        lines.append(f"ing {_cps(giri)} {_cps(text)}")
     p = subprocess.run([exe], input="\n".join(lines) + "\n", stdout=subprocess.PIPE, stderr=subprocess.PIPE,
                        text=True, timeout=60)
     out = p.stdout.split("\n")
     if p.returncode != 0 or len(out) < len(lines):
         return None
     blocks = _model_blocks(case, out[:n_model])
-    dec = out[n_model:]
+    dec = out[n_model:n_model + n_dec]
+    # statistic: the Lean model of _insert_named_graph rewrites the caller's text character for character like the store
+    sent_updates = [text for reqs in captured for kind, _g, text in reqs if kind == "u"]
+    ING_STATS.append((len(ings), sum(1 for o in out[n_model + n_dec:n_model + n_dec + len(ings)]
+                                     if any(o in _cps(t) for t in sent_updates))))
     res, j = [], 0
     for reqs, blk in zip(captured, blocks):
         d = dec[j:j + len(reqs)]
@@ -552,6 +588,10 @@ def update_text(lops, style, term):
         text = "# a comment with a { brace\n" + text + "\n# trailing } comment"
     if style == 3:
         text = "PREFIX unused: <http://e/unused#>\n" + text
+    if style == 5:   # comments with braces INSIDE the blocks, a quote in a comment
+        i = text.rfind(" }")
+        text = text[:i] + "\n# { \n }" + text[i + 2:]
+        text = text.replace("{ ", "{ # } { \" '\n ", 1)
     return text
 
 
@@ -819,7 +859,7 @@ def run_impl(case):
 
         def same(tag, what):
             if KB != KM:
-                miss, extra = sorted(KM - KB)[:2], sorted(KB - KM)[:2]
+                miss, extra = sorted(KM - KB, key=repr)[:2], sorted(KB - KM, key=repr)[:2]
                 viol.append(f"{tag}: after op {k_i} {op[0]} {what}: endpoint lacks {miss} / has unexpected {extra}")
             elif KN != KMN:
                 viol.append(f"{tag}: after op {k_i} {op[0]} {what}: endpoint graphs {sorted(KN)} but local graphs {sorted(KMN)}")
@@ -927,14 +967,18 @@ def run_impl(case):
     # ---- the text layer: every captured request text goes through the Lean READER (decoded operation =
     #      what the model predicts, compared as part of obs), and where the model has a writer for it the
     #      captured text must be character for character the text the Lean WRITER produces
+    del ING_STATS[:]
     sess = driver_session(case, captured)
+    if ING_STATS:
+        bump("named_graph_rewrites", ING_STATS[0][0])
+        bump("named_graph_rewrites_found_verbatim_in_a_sent_request", ING_STATS[0][1])
     for k_i, op in enumerate(case["ops"]):
         if sess is None:
             obs[k_i] += " ; SENT no-driver"
             continue
         dec, mtxt = sess[k_i]
         reqs = captured[k_i]
-        if op[0] == "query":
+        if op[0] == "query" and op[1] in ("pfx", "named"):
             dec = ["Q?" if kind == "q" else d for d, (kind, _g, _t) in zip(dec, reqs)]
         sent = " | ".join(dec) if dec else "-"
         mt = [] if mtxt == "none" else mtxt.split(" ")
@@ -1016,7 +1060,7 @@ def shrink(case):
         if op[0] == "update" and len(op[2]) > 1 and op[3] != 4:
             for j in range(len(op[2])):
                 yield {**case, "ops": ops[:i] + [["update", op[1], op[2][:j] + op[2][j + 1:], op[3]]] + ops[i + 1:]}
-        if op[0] == "update" and op[3] not in (0, 4):
+        if op[0] == "update" and op[3] not in (0, 4):  # styles 1,2,3,5 -> 0
             yield {**case, "ops": ops[:i] + [["update", op[1], op[2], 0]] + ops[i + 1:]}
 
 
